@@ -67,6 +67,16 @@ impl ClientId {
     pub fn new(domain: String) -> Self {
         Self::Domain(domain)
     }
+
+    /// Refuses a name that cannot be sent as the argument of one EHLO command line
+    pub(crate) fn check(&self) -> Result<(), Error> {
+        match self {
+            Self::Domain(name) if name.contains(['\r', '\n']) => {
+                Err(error::client("hello name contains CR or LF"))
+            }
+            _ => Ok(()),
+        }
+    }
 }
 
 /// Supported ESMTP keywords
